@@ -11,6 +11,7 @@ induction on the fuel).
 `Cfg.pinned` is the discipline of the pinned snapshot, kept as a switch: it is provably unsafe.
 -/
 import NaijaVerif.Lemmas.MemEval
+import NaijaVerif.Lemmas.MemEraseEval
 
 namespace NaijaVerif.Mem
 open NaijaVerif NaijaVerif.Pool
@@ -103,6 +104,58 @@ def C02Holds (cfg : Cfg) : Prop :=
 theorem c02_full : C02Holds Cfg.fixed :=
   fun fuel prog ctl lay =>
     ⟨c02_no_read_after_recycle fuel prog ctl lay, c02_pool_use_legal fuel prog ctl lay⟩
+
+/-! ### T3 — content integrity, hence erasure -/
+
+theorem rel_init (ctl : List CTok) (lay₁ lay₂ : List Nat) : R (St.init ctl lay₁) (St.init ctl lay₂) :=
+  ⟨rfl, by simp [St.init, EnvRel, SlotsRel], rfl, by simp [St.init, VRelL], by simp [St.init, TempsRel],
+   rfl, rfl⟩
+
+/-- **T3 (erasure).**  Run the evaluator with reclamation (`Cfg.fixed`: frame resets, pool slot
+recycling, promotion, return-value relocation) and without (`Cfg.noReclaim`: one arena, nothing ever
+reset, freed or reused) on the same program, fuel and control oracle, with ANY two layout oracles.
+`obs` is the sequence of content ids the program's own reads observe (operands, printed values,
+receivers, arguments, interpolated variables, indexed buffers); a content id names the bytes
+written when a string was computed and is inherited by every copy the discipline makes.  Then:
+* if both runs complete they end with the same control flow, have observed exactly the same
+  contents in the same order, and have printed values of the same shape and contents;
+* if both end with a runtime error, the same holds up to the error;
+* neither run can end with a runtime error while the other completes.
+The remaining combinations are runs in which one side stops for a reason outside the language's
+semantics (fuel, an oracle that does not fit the program, or — on the reclaiming side, excluded by
+T1/T2 — a poisoned read / illegal free). -/
+theorem c02_erasure (fuel : Nat) (prog : Block) (ctl : List CTok) (lay₁ lay₂ : List Nat) :
+    match run Cfg.fixed fuel prog ctl lay₁, run Cfg.noReclaim fuel prog ctl lay₂ with
+    | .ok fl₁ t₁, .ok fl₂ t₂ => fl₁ = fl₂ ∧ t₁.obs = t₂.obs ∧ VRelL t₁.out t₂.out
+    | .stop o₁ t₁, .stop o₂ t₂ =>
+        o₁ = .rtError → o₂ = .rtError → t₁.obs = t₂.obs ∧ VRelL t₁.out t₂.out
+    | .stop o₁ _, .ok _ _ => o₁ ≠ .rtError
+    | .ok _ _, .stop o₂ _ => o₂ ≠ .rtError := by
+  have h : RStep (do let fl ← execBlock Cfg.fixed fuel prog; popScope; pure fl : M Flow)
+      (do let fl ← execBlock Cfg.noReclaim fuel prog; popScope; pure fl : M Flow) := by
+    refine RTriple.bindE ((allRel fuel).execBlock prog) (fun fl => ?_)
+    exact RTriple.bindU popScope_rel (fun _ _ => RTriple.pure _ _ (fun _ _ h => ⟨h, rfl⟩))
+  have := h (St.init ctl lay₁) (St.init ctl lay₂) (rel_init ctl lay₁ lay₂)
+  unfold run
+  revert this
+  cases (do let fl ← execBlock Cfg.fixed fuel prog; popScope; pure fl : M Flow) (St.init ctl lay₁) <;>
+    cases (do let fl ← execBlock Cfg.noReclaim fuel prog; popScope; pure fl : M Flow) (St.init ctl lay₂) <;>
+    simp only
+  · intro h; exact ⟨h.2, h.1.obs, h.1.out⟩
+  · exact fun h => h
+  · exact fun h => h
+  · exact fun h => h
+
+/-- Erasure, in terms of what is printed: when both runs complete, the printed values have the
+same contents, position by position. -/
+theorem c02_same_output (fuel : Nat) (prog : Block) (ctl : List CTok) (lay₁ lay₂ : List Nat)
+    (fl₁ fl₂ : Flow) (t₁ t₂ : St)
+    (h₁ : run Cfg.fixed fuel prog ctl lay₁ = .ok fl₁ t₁)
+    (h₂ : run Cfg.noReclaim fuel prog ctl lay₂ = .ok fl₂ t₂) :
+    cts (MVal.handlesL t₁.out) = cts (MVal.handlesL t₂.out) ∧ t₁.obs = t₂.obs := by
+  have := c02_erasure fuel prog ctl lay₁ lay₂
+  rw [h₁, h₂] at this
+  exact ⟨this.2.2.cts, this.2.1⟩
 
 /-! ### The pinned discipline is unsafe (documents D-02; shows the theorem is not vacuous) -/
 
@@ -197,6 +250,15 @@ example :
     let r := run Cfg.fixed 20 readThenCall [.call] [5, 100, 5, 6]
     r.stopped = none ∧ Ev.reset 100 3 ∈ r.state.events ∧ Ev.pfree 0 0 ∈ r.state.events ∧
       (r.state.events.filter (· == Ev.palloc 0 0)).length = 2 := by decide +kernel
+
+open Witness in
+/-- Erasure on the D-02a witness, computed: both runs complete and observe the same contents
+(newest first: the printed concatenation `3`, the static "!" `0`, the left operand "aaaab" `1`, the
+static operands of the three concatenations). -/
+example :
+    (run Cfg.fixed 20 readThenCall [.call] [5, 100, 5, 6]).state.obs = [3, 0, 1, 0, 0, 0, 0] ∧
+    (run Cfg.noReclaim 20 readThenCall [.call] []).state.obs = [3, 0, 1, 0, 0, 0, 0] ∧
+    (run Cfg.noReclaim 20 readThenCall [.call] []).stopped = none := by decide +kernel
 
 open Witness in
 example : (run Cfg.fixed 20 selfAssign [] [3, 3]).stopped = none := by decide +kernel
